@@ -5,6 +5,21 @@ VERIF = os.path.dirname(os.path.dirname(os.path.abspath(__file__)))
 props = [json.loads(l) for l in open(os.path.join(VERIF, "properties.jsonl"))]
 
 CLAIMED = {
+    "C10": dict(
+        text="Series.tla defines every public operation as a transformer of the (period, variant) -> value map; TLC checks the laws of the "
+             "property (write frame, read, purity of functional forms, canonical trimmed span, shift exactness) on every small series state x "
+             "operation instance and isolation between handles on operation histories; all these transitions and simulated histories over "
+             "three handles are replayed through irispie.Series and compared cell by cell, with storage aliasing observed directly.",
+        note="Trusted: TLC, numpy element-wise primitives. Bounds: values {NaN,2,-3}, 3-4 period windows, 1-2 variants, about 180 operation "
+             "instances; histories of depth 12. Spans after clip and element-wise methods need only cover the observations.",
+        design="5/C10", technique="TLA+ spec (Series) model-checked by TLC; every TLC-computed transition and simulated histories replayed into irispie"),
+    "C13": dict(
+        text="Temporal.tla states the documented formulas in exact arithmetic on powers of two and TLC checks on every enumerated scenario that "
+             "cumulating a change with the original as initial condition returns the original (forward and backward, shifts -1..-4); every "
+             "scenario (6 frequencies, integer and keyword shifts, annualised variants, helpers, cumulations) is replayed through irispie.",
+        note="Trusted: TLC, numpy log/exp/power. Bounds: 7 input series of 9 periods across a year end, 1-2 variants, interior and edge NaNs. "
+             "diff_log/pct with tty in start-of-year periods and daily annualised variants are unspecified/out of bound.",
+        design="5/C13", technique="TLA+ spec (Temporal) model-checked by TLC; every TLC-computed scenario replayed into irispie"),
     "C09": dict(
         text="TLC checks the order/arithmetic/tiling/accessor/keyword-shift laws on every enumerated period (Calendar.tla) and the "
              "enumeration/reverse/shift/resolve laws on every span state and on all mutation histories inside a window (Spans*.tla); "
